@@ -114,6 +114,7 @@ class Fn:
         self.direct = []     # (held frozenset, acquired class, line)
         self.calls = []      # (held frozenset, callee name, receiver kind, receiver type, line)
         self.acq = set()     # summary: classes this function may acquire (transitively)
+        self.rtexts = {}     # call index -> source text just before the call (receiver chain)
 
 
 def parse_file(path, rel):
@@ -244,6 +245,7 @@ def analyse(s, f, inner_ranges):
                 apc = match_close(s, i + len(m.group(0)) - 1, "(", ")")
                 nargs = len(split_args(s[i + len(m.group(0)):apc].replace("->", "  ").replace("=>", "  ")))
                 f.calls.append((held(), name, rk, rt, line, nargs))
+                f.rtexts[len(f.calls) - 1] = before[-70:]
             i += len(name); continue
         i += 1
 
@@ -335,12 +337,39 @@ def main():
                 if g is f: continue
                 for c in g.acq:
                     for x in h: add(x, c, fq, "%s:%d -> %s::%s" % (f.file, line, g.owner, g.name))
+    # Drop impls that lock: a value of that type removed from a container (or overwritten) while locks
+    # are held acquires the Drop impl's locks at that point
+    DROPPERS = {"remove", "clear", "retain", "drain", "pop", "pop_front", "pop_back", "truncate", "take", "insert", "drop", "delete_subscription"}
+    drops = {}
+    for f in allf:
+        if f.name == "drop" and f.owner and f.acq:
+            drops[f.owner] = set(f.acq)
+    def snake(t): return re.sub(r"(?<!^)(?=[A-Z])", "_", t).lower()
+    for f in allf:
+        fq = "%s::%s" % (f.owner, f.name) if f.owner else f.name
+        for k, (h, name, rk, rt, line, nargs) in enumerate(f.calls):
+            if not h or name not in DROPPERS: continue
+            txt = f.rtexts.get(k, "")
+            for T, acq in drops.items():
+                if snake(T) in txt:
+                    for c in acq:
+                        for x in h: add(x, c, fq, "%s:%d drop of %s" % (f.file, line, T))
     # lock sites: (file, line) -> class, for the dynamic recorder
     sites = {}
     for f in allf:
         for (h, c, line) in f.direct:
             sites["%s:%d" % (f.file, line)] = c
     excused = json.load(open(os.path.join(V, "coq", "C38", "excused.json")))
+    # an exception of kind "read-only" is valid only while no site write-locks (or mutex-locks) that class
+    wlocked = set()
+    for rel, txt in texts.items():
+        for mm in re.finditer(r"\btrace_(write_)?lock!\s*\(", txt):
+            pc2 = match_close(txt, mm.end() - 1, "(", ")")
+            wlocked.add(lock_class(txt[mm.end():pc2]))
+    for e in excused:
+        if e.get("kind") == "read-only" and (e["held"] in wlocked or e["acquired"] in wlocked):
+            print("c38_locks: exception for %s in %s is no longer valid: the class is write-locked somewhere" % (e["held"], e["function"]))
+            excused = [x for x in excused if x is not e]
     exc = set((e["held"], e["acquired"], e["function"]) for e in excused)
     classes = sorted(set(a for a, b, fn in edges) | set(b for a, b, fn in edges) | set(c for f in allf for c in f.acq))
     idx = {c: i + 1 for i, c in enumerate(classes)}
@@ -389,6 +418,9 @@ def main():
                "edges": [[a, b, fn, s2] for (a, b, fn), s2 in sorted(edges.items())]},
               open(os.path.join(V, ".cache", "c38_sites.json"), "w"))
     nbad = sum(1 for (a, b, fn) in edges if (a, b, fn) not in exc and (a == b or rank[a] == 0 or rank[b] == 0 or rank[a] >= rank[b]))
+    for (a, b, fn), site in sorted(edges.items()):
+        if (a, b, fn) not in exc and (a == b or rank[a] == 0 or rank[b] == 0 or rank[a] >= rank[b]):
+            print("c38_locks: NOT ORDERED: %s -> %s in %s (%s)" % (a, b, fn, site))
     print("c38_locks: %d functions, %d lock sites, %d classes, %d edges (%d excused), %d not ordered" % (
         len(allf), sum(len(f.direct) for f in allf), len(classes), len(edges), len(exc & set(edges)), nbad))
 
